@@ -16,13 +16,13 @@ CHECKS = {
                 text="Every location pair / list / offset / extension on every ring and line up to the stated length is run through the real "
                      "functions and compared with a set-of-bases reference; exhaustive within the bound, so every coincidence class of the "
                      "integer arithmetic is reached.",
-                note="Small-scope hypothesis (L <= 9 quick, <= 16 thorough); gene-like operands (2-4 exons, abutting exons, exons on both sides of the origin) for connect and offset on L <= 7-9; a multi-exon operand of connect is covered with its introns; reference model in mc/ref/bases.py is trusted; Biopython location classes trusted."),
+                note="Small-scope hypothesis (L <= 9 quick, <= 16 thorough); gene-like operands (2-4 exons, abutting exons, exons on both sides of the origin) for connect and offset on L <= 7-9; a multi-exon operand of connect is covered with its introns; reference model in mc/ref/bases.py is trusted; extension of multi-exon locations judged between 'outer ends' and 'span' (whether an extension that runs into an intron fills it is left open); Biopython location classes trusted."),
     "C01": dict(engine="E1", level="exploration", ref="DESIGN.md 5/C01",
                 technique="bounded exhaustive enumeration of condition trees x gene worlds x hit assignments on the real evaluator vs truth-table semantics",
                 text="Every condition tree up to the leaf bound is evaluated by the real DetectionRule.detect and apply_cluster_rules on every "
                      "gene world (boundary gaps around the cutoff, line/ring/origin) and every hit assignment, and compared with a 25-line "
                      "truth-table semantics of the documented meaning; exhaustive within the bound.",
-                note="Bounds: <=2 leaves quick, <=3 thorough, <=2 neighbours; profile names interchangeable; reference semantics in mc/ref/rulesem.py trusted."),
+                note="Bounds: <=2 leaves quick, <=3 thorough, <=2 neighbours; profile names interchangeable; minscore inside cds(...) (accepted by the parser) judged as 'one single gene on its own'; reference semantics in mc/ref/rulesem.py trusted."),
     "C08": dict(engine="E1+E2", level="model_checking", ref="DESIGN.md 5/C08",
                 technique="explicit-state BFS over add/create/clear histories of a real Record (membership and links in every state, build-order differential) + bounded exhaustive enumeration of gene layouts x query locations vs brute-force set-of-bases predicates",
                 text="Every set of <=3-4 genes over all intervals of a tiny line/ring and every query location (simple and origin-spanning, both flags) "
@@ -34,7 +34,7 @@ CHECKS = {
                      "semantics-preserving normal form, with a truth-table fallback through the real evaluator) with the AST it was built from / "
                      "with what an independent recogniser of the documented grammar derives; every single-token corruption must be rejected or "
                      "parse to the recogniser's meaning; shipped rule files and regenerated texts included.",
-                note="Bounds: <=3 leaves, one corruption (incl. an unknown profile inside every used alias body), <=2 layout deviations; rules split over files x multipliers, also through create_rules on real files; SUPERIORS forks over five rules; reference recogniser mc/ref/grammar.py trusted; minscore inside cds() unjudged; one open finding (C02-F1)."),
+                note="Bounds: <=3 leaves, one corruption (incl. an unknown profile inside every used alias body), <=2 layout deviations; rules split over files x multipliers, also through create_rules on real files; SUPERIORS forks over five rules; reference recogniser mc/ref/grammar.py trusted; single-member (doubly negated) groups; multiplier products judged exactly (0.7, 1.13, 2.3); shipped rules also through Ruleset.from_files / copy with multipliers; minscore inside cds() left to C01; one open finding (C02-F1)."),
     "C03": dict(engine="E1", level="exploration", ref="DESIGN.md 5/C03",
                 technique="bounded exhaustive enumeration of gene layouts x hit tables x ruleset families through the real detection vs set-of-bases components/span/extension",
                 text="Every layout of <=3-4 genes at every position of a tiny line/ring (incl. origin-spanning genes), every hit table and five ruleset "
@@ -46,41 +46,41 @@ CHECKS = {
                 text="Every multiset of <=3-4 real Protocluster objects from a slotted menu (nested, touching, identical, origin-spanning cores and extents) "
                      "is supplied to a real Record in every order; universal invariants (membership, span, no duplicates, order independence) and the "
                      "documented kinds (reference = connected components over set-of-bases overlap plus the documented de-duplication) are compared.",
-                note="6-7 slots, <=4 protoclusters, plus five-protocluster families (two hybrids of different neighbourhood size + every further protocluster; >= 3 coinciding core boundaries); spans via the real connect_locations (C04); kinds compared only where the reference is unambiguous."),
+                note="6-7 slots, <=4 protoclusters, plus five-protocluster families (two hybrids of different neighbourhood size + every further protocluster; >= 3 coinciding core boundaries); spans via the real connect_locations (C04); whole-record extents (clipped neighbourhoods) incl. two hybrid pairs at identical coordinates, sideloaded (strandless) and origin-crossing-core families; candidate numbering and member order compared across supply orders by content; kinds compared only where the reference is unambiguous (a weaker group arriving at coordinates held by two candidates)."),
     "C07": dict(engine="E1", level="exploration", ref="DESIGN.md 5/C07",
                 technique="metamorphic exhaustive enumeration: every origin rotation and every rule permutation/sub-selection, differential against the base run",
                 text="Every gap-word layout x hit table x ruleset family is run through detection -> candidates -> regions at every one of the L rotations "
                      "of the origin (records rebuilt from scratch) and for every permutation / sub-selection of the rules; coordinate-free descriptions "
                      "must be identical (rotation: when every base region spans < L/2).",
-                note="L in {24,25}, <=3 genes, gaps {0,1,2,3,4,6}, plus layouts with a gene carrying a long intron; descriptions computed by set-of-bases containment; no expected values needed."),
+                note="L in {24,25}, <=3 genes, gaps {0,1,2,3,4,6}, plus layouts with a gene carrying a long intron and layouts with a short gene nested in a long one (ring of 36) under extender rules; descriptions computed by set-of-bases containment; no expected values needed."),
     "C06": dict(engine="E1+E2", level="model_checking", ref="DESIGN.md 5/C06",
                 technique="explicit-state BFS over add/clear/create call histories of a real Record with a canonical state hash + bounded exhaustive enumeration of area sets vs connected components",
                 text="Part A: every set of <=3-4 areas (subregions, candidate clusters via real protoclusters) on a slotted line/ring through "
                      "create_regions, judged against connected components of set-of-bases overlap, span == union, numbering. Part B: breadth-first "
                      "search over all call histories up to depth 6/8 of a 15-16 operation alphabet on real Records; numbering, identity, parent/child "
                      "links, no stale references, clear+create idempotence and build-order independence are checked in every state.",
-                note="Canonicalisation drops only fields no public accessor exposes; enabling conditions follow the pipeline order (protoclusters -> candidates -> regions); depth bound 6 (quick) / 8 (thorough); input part: every set of <= 4 areas of the slotted menu (incl. one-sided neighbourhoods and a tight-core universe with small gaps between areas)."),
+                note="Canonicalisation drops only fields no public accessor exposes; enabling conditions follow the pipeline order (protoclusters -> candidates -> regions); depth bound 6 (quick) / 8 (thorough); input part: every set of <= 4 areas of the slotted menu (incl. one-sided neighbourhoods and a tight-core universe with small gaps between areas); features removed by clear_*() must no longer answer with a number."),
     "C09": dict(engine="E1", level="exploration", ref="DESIGN.md 5/C09",
                 technique="bounded exhaustive enumeration of gene structures x protein ranges through the real coordinate mapping vs the transcript-order list",
                 text="Every gene structure (strand, 1-3 exons at every cut incl. mid-codon, intron lengths, origin before/on every exon border/inside "
                      "every exon/inside every intron) x every protein range through get_sub_location_from_protein_coordinates, Prepeptide.to_biopython, "
                      "TTA markers, NRPS/PKS domain and motif feature generation; the returned location's transcript-order base list must equal "
                      "the gene's transcript slice (inside the gene, three bases per residue, same strand).",
-                note="Coding lengths 12-24, <=4 exons, ring of 60, codon_start 1-3 through the real loader (a 5' exon that the frame offset would empty is degenerate input and not judged); Biopython extract() semantics is the trusted definition of 'encodes'; split TTA codons may be left unmarked."),
+                note="Coding lengths 12-24, <=4 exons, ring of 60, codon_start 1-3 through the real loader (a 5' exon that the frame offset would empty is degenerate input and not judged); Biopython extract() semantics is the trusted definition of 'encodes'; split TTA codons may be left unmarked; two open findings (C09-F1 precursor on a location with its stop codon, C09-F2 overlapping exons)."),
     "C15": dict(engine="E1", level="exploration", ref="DESIGN.md 5/C15",
                 technique="exhaustive enumeration of all DNA strings over {A,T,G} up to a length bound (plus one-letter deviations) x direction x offset/wrap x minimum length vs an independent scanner, with extraction equality; bounded enumeration of gene layouts for the gap search",
                 text="Every string over the three letters that form all start/stop codons up to length 9 (quick) / 12 (thorough), both directions, every "
                      "position of the window on a small ring (so every wrap point), five minimum lengths: reported ORFs must equal the reference scanner's "
                      "and extract to exactly the ORF; find_all_orfs on tiny records with <=2 genes, three area kinds and three overlaps must only return "
                      "valid ORFs outside gene interiors with matching translations.",
-                note="Alphabet argument: other letters only act as 'not a start/stop'; minimum-length band between with/without stop codon accepted either way; gap search judged for soundness only."),
+                note="Alphabet argument: other letters only act as 'not a start/stop'; minimum-length band between with/without stop codon accepted either way; gap search judged for soundness only, on the search windows themselves (sequence independent) and on the ORFs returned; one open finding (C15-F1, origin-crossing gene in an origin-spanning area)."),
     "C16": dict(engine="E1", level="exploration", ref="DESIGN.md 5/C16",
                 technique="bounded exhaustive enumeration of ordered identifier lists from an adversarial pool through the real pre-processing; post-conditions of the statement",
                 text="Every ordered list of <=3 (<=4 from a sub-pool) record ids from a pool built around each sanitising step (duplicates, ids equal after "
                      "removing illegal characters, equal 7/12-character prefixes, ids equal to another's shortened form, versioned accessions, contig/scaffold "
                      "numbers) with both header settings goes through the real pre_process_sequences in-process; ids must be pairwise distinct, legal, "
                      "<= 16 characters unless long headers are allowed, and remember their original. Gene names: every ordered triple of a 9-entry menu through add_cds_feature.",
-                note="Pool of 44 ids plus a structured family of long ids (every 3-character head over {a,b,:}, with/without contig number, and their shortened forms); no-op gene finding module; only record ids (not names) are judged for length/legality, as in the statement."),
+                note="Pool of 44 ids plus a structured family of long ids (every 3-character head over {a,b,:}, with/without contig number, and their shortened forms); no-op gene finding module; families of 9..1100 ids competing for one generated name (counter digit boundaries); only record ids (not names) are judged for length/legality, as in the statement."),
     "C14": dict(engine="E1", level="exploration", ref="DESIGN.md 5/C14",
                 technique="bounded exhaustive enumeration of domain strings (representative and full alphabets) and head/tail string pairs through the real module builder vs layout rules written from the docstring",
                 text="Every domain string up to depth 3-5 over one representative per behavioural class of the ~75 profile names (full alphabet to depth 3 "
@@ -94,21 +94,21 @@ CHECKS = {
                      "whole-record) with genes incl. an origin-spanning one goes through build_area_rows and js.convert_regions: per kind the drawn extents "
                      "(halves of one group joined, modulo L) equal the features' extents, same-row areas are disjoint, everything lies in the announced range, "
                      "cores lie in their extents, gene drawings cover exactly the genes.",
-                note="6-8 slots, every set of <= 4 areas (slot-aligned, one-sided neighbourhoods, and a tight-core universe with small gaps); gene tooltip rendering stubbed (no coordinates); completeness judged on multisets because layout areas carry no identifiers."),
+                note="6-8 slots, every set of <= 4 areas (slot-aligned, one-sided neighbourhoods, and a tight-core universe with small gaps); gene tooltip rendering stubbed (no coordinates); uneven neighbourhoods; a gene with a slot-long intron; completeness judged on multisets because layout areas carry no identifiers; one open finding (C19-F1)."),
     "C20": dict(engine="E4", level="fault_enumeration", ref="DESIGN.md 5/C20",
                 technique="exhaustive fault enumeration: every fault kind at every (record, module) conversion index against every pre-existing file state; every subset of a directory-content menu x run mode",
                 text="For 1-3 records x 0-3 module results, each of six fault kinds is injected at every conversion position (and none) into "
                      "AntismashResults.write_to_file and dump_records, with the target file absent or present: the failure must reach the caller and "
                      "the bytes and mtime of an existing file must be unchanged; a fault-free write must produce the complete JSON. "
                      "prepare_output_directory is run on every subset of an 8-entry content menu x {fresh, reuse} x {absent, present, path is a file}.",
-                note="Faults come from harness-supplied ModuleResults subclasses; hidden directory entries outside the alphabet; whole-pipeline ordering not runnable offline."),
+                note="Faults come from harness-supplied ModuleResults subclasses; hidden directory entries in the alphabet (open finding C20-F1); whole-pipeline ordering not runnable offline."),
     "C13": dict(engine="E3+E1", level="model_checking", ref="DESIGN.md 5/C13",
                 technique="stateless exploration of all set-iteration orders (import hook makes them explicit choices) x bounded exhaustive enumeration of hit multisets; post-conditions + differential across orders",
                 text="Every multiset of <=3-5 hits from a boundary menu is refined by the real refine_hmmscan_results in both modes under every iteration "
                      "order of the hit set (all n! for n<=4); hmmer.remove_overlapping and the detection filters are run on every permutation of their "
                      "input lists and every order of their internal sets. Post-conditions of the statement (sorted, no overlap beyond the margin, outputs are "
                      "inputs or legitimate merges, every drop is excused) and 'one result for all orders' are checked.",
-                note="Set-order hook owns all sets created in antiSMASH code; profile lengths 40/100 put the 20% margin, 1.5x span and 50%/33% completeness thresholds on menu boundaries; merging of fragments is permitted by the statement but not demanded by the oracle; one open finding (C13-F1, a family of stage-interplay cases listed exactly)."),
+                note="Set-order hook owns all sets created in antiSMASH code; profile lengths 40/100 put the 20% margin, 1.5x span and 50%/33% completeness thresholds on menu boundaries; merging of fragments is permitted by the statement but not demanded by the oracle; hits shorter than the overlap limit and a bystander profile in the filter menus; two open findings (C13-F1 displaced by a discarded fragment, C13-F2 single positional pass), listed exactly."),
     "C17": dict(engine="E3", level="model_checking", ref="DESIGN.md 5/C17",
                 technique="stateless deviation-bounded exploration of set-iteration orders (AST import hook over the whole antismash package), differential against the default order; conformance runs in plain interpreters under varied PYTHONHASHSEED",
                 text="Tie-laden scenarios run through detection -> annotation -> protoclusters -> candidates -> regions -> to_biopython -> GenBank/JSON "
@@ -116,21 +116,21 @@ CHECKS = {
                      "explorer: default order, every single deviation at every choice point, all pairs (triples) on small scenarios. Every explored "
                      "order must produce byte-identical output. The same scenarios run uninstrumented in 8/32 child processes with different hash seeds "
                      "and allocation patterns; all must agree with each other and with the explored outcome.",
-                note="Seed space 2^32 replaced by exhaustive ownership of set iteration order within the deviation bound; dict order is insertion order; sets inside Biopython/stdlib not instrumented; pair exploration capped at 4000 runs per scenario in thorough (cap reported)."),
+                note="Seed space 2^32 replaced by exhaustive ownership of set iteration order within the deviation bound; dict order is insertion order; sets inside Biopython/stdlib not instrumented; pair exploration capped at 4000 runs per scenario in thorough (cap reported); saved results of terpene / t2pks / RiPP modules filled from hand-made hit tables (external tools unavailable)."),
     "C18": dict(engine="E3+E4", level="model_checking", ref="DESIGN.md 5/C18",
                 technique="explicit model of the pool's FIFO chunk dispatch whose every trace (completion order within a deviation bound) is replayed on the real multiprocessing pool under a controller gating each task with fork-inherited Events; fault enumeration of failing/hanging tasks",
                 text="For every (n tasks, k workers) of the grid, every completion order within the deviation bound is executed on the real "
                      "parallel_function: tasks block on their own Events, the controller releases the task the schedule names once the real started-set "
                      "equals the model's. The returned list must equal the sequential result in argument order for every schedule; a task raising at any "
                      "position or hanging past the timeout must raise in the caller. Annotated records are compared across pickle and real pool round trips.",
-                note="Model/implementation conformance is enforced at every step (divergence = harness error after a 60 s watchdog, never a verdict); worker counts 1-4 and 16; deviation bound 2 (quick) / 3 (thorough); content: generic deep object-state comparison of the catalogue records across pickle and a real pool; histories of batches with state changes in between; pre_process_sequences with 2-3 workers against 1 worker."),
+                note="Model/implementation conformance is enforced at every step (divergence = harness error after a 60 s watchdog, never a verdict); worker counts 1-4 and 16; deviation bound 2 (quick) / 3 (thorough); content: generic deep object-state comparison of the catalogue records across pickle and a real pool; histories of batches with state changes in between; pre_process_sequences with 2-3 workers against 1 worker; lost workers (killed / SystemExit) through the real helper in a watched child process - open finding C18-F1."),
     "C10": dict(engine="E1", level="exploration", ref="DESIGN.md 5/C10",
                 technique="bounded exhaustive enumeration of an annotated-record catalogue built by the real producers; write/read/write fixed point + canonical description equality",
                 text="Every record of the catalogue (topology x 7 gene layouts x 5 rulesets x 6 sideload variants x subsets of 7 extra annotation kinds; "
                      "763 quick / 9690 thorough) is written to GenBank text and to the results JSON with the real writers, read back with the real readers "
                      "and written again: the first output must equal the second byte for byte and the canonical description (sequence, topology, every "
                      "emitted feature with qualifiers, area structure with numbers and cross references) must be unchanged.",
-                note="HMMER look-ups replaced by fixed hit tables; three module effects that need external tools are stood in for by their one-line effect on the record (smCOG note on a gene, SMILES/polymer on a candidate cluster, a plain precursor peptide); all other producer code is real; strand-less area locations are identified with forward ones (GenBank cannot distinguish); two open findings (C10-F1, C10-F2)."),
+                note="HMMER look-ups replaced by fixed hit tables; three module effects that need external tools are stood in for by their one-line effect on the record (smCOG note on a gene, SMILES/polymer on a candidate cluster, a plain precursor peptide); all other producer code is real; strand-less area locations are identified with forward ones (GenBank cannot distinguish); three open findings (C10-F1, C10-F2, C10-F3)."),
     "C12": dict(engine="E1", level="exploration", ref="DESIGN.md 5/C12",
                 technique="bounded exhaustive enumeration of every region of the annotated-record catalogue through the real region writer and readers; extraction equality + structural isomorphism + parent-unchanged",
                 text="Every region of every catalogue record (first/later region, at a record end, origin-spanning, with origin-spanning genes, several "
@@ -138,7 +138,7 @@ CHECKS = {
                      "holds exactly the region's sequence, every feature inside the region is present and extracts to the same bases, the loaded record has "
                      "one region with areas numbered from 1 and the same kinds/products/membership/cores/leader-tail pieces, and the full record and the "
                      "Biopython record passed in are unchanged.",
-                note="Aperiodic catalogue sequence so extraction equality pins coordinates; product order compared as a multiset for linearised origin-spanning regions; three open findings (C12-F1, C12-F2, C12-F3)."),
+                note="Aperiodic catalogue sequence so extraction equality pins coordinates; product order compared as a multiset for linearised origin-spanning regions; four open findings (C12-F1 .. C12-F4)."),
     "C11": dict(engine="E2", level="model_checking", ref="DESIGN.md 5/C11",
                 technique="explicit-state BFS over save/regenerate/option-change/tamper histories per results object (state = saved JSON + option vector + tamper flag, hashed), every regenerate transition executed on the real module-level regeneration against a fresh record; differential against fresh production under the changed settings",
                 text="For every results object of five families (rule detection, sideloading, NRPS/PKS domains+modules, HMMer domains, TTA) produced by "
